@@ -1,5 +1,7 @@
 import Ptn.C09.Model
 import Ptn.C09.GaugeModel
+import Ptn.C09.StepModel
+import Ptn.C02.Driver
 /-! Line-protocol handler for C09 (core Lean only).
 
   order <id:parent> …   (root has parent `-`; children of a node are taken in order of appearance)
@@ -7,6 +9,20 @@ import Ptn.C09.GaugeModel
   gauge <0|1> <id:parent> …   (1 = fixed rank) the gauge machine of one BUG step on that tree
       → `<events, separated by ;> | <final record n>v / n>- per node, in pre-order> | pend k | frames …`
         (`stuck` if the machine cannot run: never on a tree)
+  sstep <0|1> <id:parent> … / <root:… child:… building ops of the C02 driver> / <b:<c>=<bid> d:<c>=<bdim> p:<c>=<perm>> …
+      the same step, event by event, on the structural TTN model of C02 (`Ptn.C09.Step`): the tree entries are those of
+      `gauge` (children in visiting order); the building ops (`Ptn.C02.parseHOp`, only `root:` / `child:`) mirror the
+      initial `new_state` (children order, leg order, dimensions); parameters: `b` = number of the basis-change node of
+      `c`, `d` = rank of the new bond above `c` (both REQUIRED for every non-root node), `p` = the permutation the pull
+      of `c` passes to `replace_tensor` (comma list, `-` = empty list; absent = none).
+      → `start => <state> # pend -` followed by one field per event of `Gauge.bugEvents`, separated by ` | `:
+        `<event as in gauge> => <state> # pend <pending>` with
+        <state>   = `Ptn.C02.showTTN` of the structural state after the event (`Step.sTrace`), or `err` from the first
+                    failing edit on;
+        <pending> = the basis-change nodes pending in the gauge machine after the same prefix of events
+                    (`Gauge.run`), as `c>p,…` (the one of `c`, hanging below `p`), `-` if there is none, `stuck` if the
+                    gauge machine cannot run that prefix.
+      `bad-op` if anything does not parse, a building op fails, or a parameter is missing / given twice.
 -/
 namespace Ptn.C09
 
@@ -61,9 +77,92 @@ def handleGauge (fixed : Bool) (toks : List String) : String :=
     | none => "stuck"
     | some s => " ; ".intercalate (evs.map Gauge.showGEv) ++ " | " ++ Gauge.showState (Ptn.C17.RTree.ids r) s
 
+/-! ### `sstep`: gauge machine and structural model side by side -/
+
+/-- the segments of a token list between lone `/` tokens -/
+def splitSlash : List String → List (List String)
+  | [] => [[]]
+  | tok :: rest =>
+    match splitSlash rest with
+    | [] => [[tok]]
+    | seg :: segs => if tok = "/" then [] :: seg :: segs else (tok :: seg) :: segs
+
+inductive PTok where
+  | b (c : Nat) (v : Nat)
+  | d (c : Nat) (v : Nat)
+  | p (c : Nat) (v : List Nat)
+
+def parsePTok (tok : String) : Option PTok :=
+  match tok.splitOn ":" with
+  | [k, rest] =>
+    match rest.splitOn "=" with
+    | [c, v] =>
+      match c.toNat? with
+      | none => none
+      | some c' =>
+        if k = "b" then v.toNat?.map (PTok.b c')
+        else if k = "d" then v.toNat?.map (PTok.d c')
+        else if k = "p" then (Ptn.C02.parseList v).map (PTok.p c')
+        else none
+    | _ => none
+  | _ => none
+
+def lookupN {α : Type} (l : List (Nat × α)) (k : Nat) : Option α := (l.find? (fun e => e.1 == k)).map (·.2)
+
+/-- the parameters: every key at most once, `b` and `d` for every node of `need` -/
+def mkParams (ps : List PTok) (need : List Nat) : Option Step.Params :=
+  let bs := ps.filterMap fun | .b c v => some (c, v) | _ => none
+  let ds := ps.filterMap fun | .d c v => some (c, v) | _ => none
+  let qs := ps.filterMap fun | .p c v => some (c, v) | _ => none
+  let nodupKeys := fun (l : List Nat) => l.eraseDups.length == l.length
+  if !(nodupKeys (bs.map (·.1)) && nodupKeys (ds.map (·.1)) && nodupKeys (qs.map (·.1))) then none
+  else if !(need.all fun c => (lookupN bs c).isSome && (lookupN ds c).isSome) then none
+  else some ⟨fun c => (lookupN bs c).getD 0, fun c => (lookupN ds c).getD 0, fun c => lookupN qs c⟩
+
+/-- the network built by `root:` / `child:` ops from the empty one (no other op is accepted) -/
+def buildTTN (toks : List String) : Option Ptn.C02.TTN :=
+  toks.foldlM (fun (t : Ptn.C02.TTN) tok =>
+    match Ptn.C02.parseHOp tok with
+    | some (.op (.root i ax)) => t.step (.root i ax)
+    | some (.op (.child i ax cl p pl)) => t.step (.child i ax cl p pl)
+    | _ => none) Ptn.C02.TTN.empty
+
+def showPend (g : Option Gauge.GState) : String :=
+  match g with
+  | none => "stuck"
+  | some s => if s.pend.isEmpty then "-" else ",".intercalate (s.pend.map fun e => s!"{e.1}>{e.2}")
+
+def showSt (t : Option Ptn.C02.TTN) : String :=
+  match t with
+  | none => "err"
+  | some t => Ptn.C02.showTTN t
+
+def handleSStep (fixed : Bool) (toks : List String) : String :=
+  match splitSlash toks with
+  | [treeToks, opToks, parToks] =>
+    match parseTree treeToks, buildTTN opToks, parToks.mapM parsePTok with
+    | some t, some net, some ps =>
+      let r := t.toR
+      let root := Ptn.C17.RTree.rid r
+      match mkParams ps ((Ptn.C17.RTree.ids r).filter (· != root)) with
+      | none => "bad-op"
+      | some P =>
+        if opToks.isEmpty then "bad-op" else
+        let evs := Gauge.bugEvents fixed r
+        let g0 := Gauge.start (fun _ => none) r
+        let states := Step.sTrace P net evs              -- the start state, then the state after every event
+        let labels := "start" :: evs.map Gauge.showGEv
+        let fields := (List.range labels.length).map fun k =>
+          s!"{labels.getD k "?"} => {showSt ((states.getD k none))} # pend {showPend (Gauge.run g0 (evs.take k))}"
+        " | ".intercalate fields
+    | _, _, _ => "bad-op"
+  | _ => "bad-op"
+
 def handle (args : List String) : String :=
   match args with
   | "gauge" :: "0" :: toks => handleGauge false toks
+  | "sstep" :: "0" :: toks => handleSStep false toks
+  | "sstep" :: "1" :: toks => handleSStep true toks
   | "gauge" :: "1" :: toks => handleGauge true toks
   | "order" :: toks =>
     match toks.mapM parseEntry with
